@@ -420,10 +420,19 @@ pub trait PixelDataWriter {
     ) -> EncodeResult<Vec<AttributeOp>> {
         let frames = src.number_of_frames().unwrap_or(1);
         let mut out = Vec::new();
+        // the offset of a frame is the position of its fragment's item header
+        // counted from the first fragment item (so 0 for the first fragment),
+        // where each fragment is preceded by an 8 byte item header
+        let mut offset: u32 = dst.iter().map(|f| f.len() as u32 + 8).sum();
         for frame in 0..frames {
             let mut frame_data = Vec::new();
             out = self.encode_frame(src, frame, options.clone(), &mut frame_data)?;
-            offset_table.push(frame_data.len() as u32 + 8 * (frame + 1));
+            if frame_data.len() % 2 == 1 {
+                // fragments must have an even length
+                frame_data.push(0);
+            }
+            offset_table.push(offset);
+            offset += frame_data.len() as u32 + 8;
             dst.push(frame_data);
         }
         Ok(out)
